@@ -25,9 +25,10 @@ where a test-level object hands out the contract-level one.  Emitted:
 Fail-closed: each link of the chain must be called exactly once in the module, by name, with plain
 positional / keyword arguments; run_tests must build the test's FunctionContext from
 `with_devdoc(ctx.args, ...)` and the shared `ctx`; run_tests / run_test / run_message must not store into
-the ContractContext; run_contract initialises the caches with the post-setUp state alone
-(`ctx.frontier_states[0] = [setup_ex]`, `ctx.visited.add(get_state_id(setup_ex))`: Model.init_ctx) before its
-single call of run_tests.
+the ContractContext; run_contract initialises the frontier with the post-setUp state alone
+(`ctx.frontier_states[0] = [setup_ex]`) and either leaves `ctx.visited` empty or registers exactly that state
+(`ctx.visited.add(get_state_id(setup_ex))`): emitted as `setup_state_visited : bool` (Model.init_ctx) -- before
+its single call of run_tests.
 """
 import ast
 
@@ -243,7 +244,8 @@ def check_run_tests(tree):
 
 def check_run_contract(tree):
     """run_contract(ctx): ctx.frontier_states[0] = [setup_ex]; ctx.visited.add(get_state_id(setup_ex));
-    run_tests(ctx, setup_ex, ...) -- the initial caches hold the post-setUp state and nothing else (Model.init_ctx)"""
+    run_tests(ctx, setup_ex, ...) -- the initial caches hold the post-setUp state and nothing else (Model.init_ctx);
+    whether the visited.add is there is reported (setup_visited)"""
     fn = find_function(tree, "run_contract")
     ps = params_of(fn)
     if len(ps) != 1:
@@ -255,15 +257,22 @@ def check_run_contract(tree):
             isinstance(stores[0].value, ast.List) and len(stores[0].value.elts) == 1 and isinstance(stores[0].value.elts[0], ast.Name)):
         _fail(f"run_contract: expected the single store `{c}.frontier_states[0] = [<setup state>]`", stores[0] if stores else fn)
     setup_name = stores[0].value.elts[0].id
-    vis = [n for n in body if isinstance(n, ast.Call) and "visited" in _src(n.func)]
-    if len(vis) != 1 or _src(vis[0]) != f"{c}.visited.add(get_state_id({setup_name}))":
-        _fail(f"run_contract: expected the single call `{c}.visited.add(get_state_id({setup_name}))`", vis[0] if vis else fn)
+    # the visited set: either untouched (the setUp state is not "visited") or exactly `ctx.visited.add(get_state_id(setup_ex))`
+    vis = [n for n in body if isinstance(n, (ast.Attribute, ast.Name)) and (getattr(n, "attr", None) == "visited" or getattr(n, "id", None) == "visited")]
+    vis_calls = [n for n in body if isinstance(n, ast.Call) and "visited" in _src(n.func)]
+    if not vis:
+        setup_visited = False
+    elif len(vis) == 1 and len(vis_calls) == 1 and _src(vis_calls[0]) == f"{c}.visited.add(get_state_id({setup_name}))":
+        setup_visited = True
+    else:
+        _fail(f"run_contract: the visited set is neither left empty nor initialised by `{c}.visited.add(get_state_id({setup_name}))`", vis[0])
     rts = calls_to(fn, "run_tests")
-    if len(rts) != 1 or [_src(a) for a in rts[0].args[:2]] != [c, setup_name] or rts[0].lineno < stores[0].lineno or rts[0].lineno < vis[0].lineno:
+    if (len(rts) != 1 or [_src(a) for a in rts[0].args[:2]] != [c, setup_name] or rts[0].lineno < stores[0].lineno
+            or (vis_calls and rts[0].lineno < vis_calls[0].lineno)):
         _fail(f"run_contract: expected `run_tests({c}, {setup_name}, ...)` after the cache initialisation", rts[0] if rts else fn)
     if sum(1 for n in ast.walk(tree) if isinstance(n, ast.Name) and n.id == "run_tests") != 1:
         _fail("run_tests must be called exactly once in the module (by run_contract)")
-    return {"setup_state": setup_name}
+    return {"setup_state": setup_name, "setup_visited": setup_visited}
 
 
 def translate(src_text):
@@ -365,8 +374,11 @@ def translate(src_text):
         "(* ContractContext.frontier_states is read and written under the depth alone *)",
         f"Definition cache_key_depth_only : bool := {'true' if key_ok else 'false'}.",
         "",
+        "(* run_contract registers the id of the post-setUp state in ContractContext.visited *)",
+        f"Definition setup_state_visited : bool := {'true' if rc['setup_visited'] else 'false'}.",
+        "",
     ]
-    info = {"explore_cfg_src": cfg_src, "frontier_test_inputs": tainted, "cache_key_depth_only": key_ok,
+    info = {"explore_cfg_src": cfg_src, "frontier_test_inputs": tainted, "cache_key_depth_only": key_ok, "setup_state_visited": rc["setup_visited"],
             "key_lookup": sorted(key_lookup), "key_store": sorted(key_store), "signatures": sigs, "run_tests": rt, "run_contract": rc,
             "target_cfg_provenance": sorted(cfg_lab)}
     return "\n".join(lines), info
